@@ -26,11 +26,18 @@ def generate(rng, tier):
             yield R.gen_case(rng, tier)
 
 
+def writer_threads(case):
+    """F7/F8/F11/F13 need two publishers inside `publish` at once: with ONE writer thread the multi-producer sequencer releases
+    everything (c06_multi_single_writer_*), so a stranded sequence there is not the known finding"""
+    m = re.search(r'writers=(\S+)', case.header)
+    return len(m.group(1).split('|')) if m else 1
+
+
 def signatures(case, lines):
     out = []
     for l in lines:
         m = re.search(r'all claimants published but cursor=(\d+) highest-claimed=(\d+) producer=multi lwRegressed=(\w+)', l)
-        if m and int(m.group(1)) < int(m.group(2)):
+        if m and int(m.group(1)) < int(m.group(2)) and writer_threads(case) >= 2:
             out.append({'producer': 'multi', 'kind': 'stranded', 'lw_regressed': m.group(3) == 'true'})
         else:
             out.append(None)
